@@ -110,6 +110,35 @@ func (g *sdocGen) selset(parent string, depth int) []*snode {
 			}
 		}
 	}
+	// equal response keys: a field of this selection set selected once more under the same key, in
+	// the same scope and without arguments (the merging rule lets that pass): a leaf is resolved
+	// once, the selection sets of a composite field are merged
+	if g.r.Chance(1, 4) {
+		var fields []*snode
+		for _, n := range out {
+			if n.kind == 'f' && n.name != "nofield" {
+				fields = append(fields, n)
+			}
+		}
+		if len(fields) > 0 {
+			orig := rng.Pick(g.r, fields)
+			dup := &snode{kind: 'f', key: orig.key, name: orig.name}
+			if len(orig.sub) > 0 {
+				var ft string
+				for _, f := range pt.Fields {
+					if f.Name == orig.name {
+						ft = f.Type.Name
+					}
+				}
+				dup.sub = g.selset(ft, depth+1)
+			}
+			if g.r.Chance(1, 3) {
+				out = append(out, &snode{kind: 'i', sub: []*snode{dup}})
+			} else {
+				out = append(out, dup)
+			}
+		}
+	}
 	return out
 }
 
